@@ -152,6 +152,8 @@ def argv_of(job):
         a += [f"spawn={job['spawn']}"]
     if job.get("fault"):
         a += [f"fault={job['fault']}"]
+    if job.get("bar"):
+        a += ["bar=1"]
     a += [f"hang={hang_limit(job)}"]
     return a
 
